@@ -42,10 +42,29 @@ class Check(PropertyCheck):
             self.extra_coverage = {"exhaustive_small_scope": True}
             yield from slices.exhaustive_small("time")
         for _i in range(n):
+            if _i % 100 == 17:
+                yield self.long_machine_scenario(rng)
+                continue
             if _i % 20 == 9:
                 yield Scenario(["new", f"mark raiser {rng.randint(0, 10**6)}"], {"family": "raiser", "accepted": 0})
                 continue
             yield self.scenario(rng, tier)
+
+    def long_machine_scenario(self, rng: random.Random) -> Scenario:
+        """One machine with several dozen short operations (more than any small-list shortcut would expect), queued while a long
+        operation on another machine holds the clock: the clock and the completed set after every dispatch."""
+        n = rng.randint(33, 40)
+        unit = rng.choice([1, 1, 2])
+        jobs = [[([0], unit)] for _ in range(n)] + [[([1], unit * (n - 1)), ([1], 1)]]
+        order = list(range(n))
+        if rng.random() < 0.5:
+            rng.shuffle(order)
+        lines = ["new", instance_line(jobs), gen.filter_line(None), "q current_time", "q completed", f"disp {n} 0 1", "q current_time", "q completed"]
+        for j in order:
+            lines += [f"disp {j} 0 0", "q current_time", "q completed"]
+        lines += [f"disp {n} 1 1", "q current_time", "q completed", "q is_complete", "q makespan"]
+        return Scenario(lines, {"family": "long_machine", "filter": "none", "flexible": False, "zero_dur": False, "accepted": n + 2,
+                                "filter_style": "callable"})
 
     def scenario(self, rng: random.Random, tier) -> Scenario:
         family, jobs = gen.gen_instance(rng, max_jobs=5 if tier == "quick" else 6)
